@@ -9,6 +9,7 @@ import Drv.Base
 import Drv.Reader
 import Drv.Blocks
 import PdtModel.Model.Json
+import PdtModel.Model.JsonText
 open Lean Pdt Pdt.Reader Pdt.Represent Pdt.Blocks
 namespace Drv.JsonOps
 
@@ -125,6 +126,18 @@ def blockValToJsonJ : BlockVal → Json
   | .json p => Json.mkObj [("jsondata", excOrJVal (Pdt.Json.ofPrecursor p))]
   | v => blockValToJson v
 
+/-- numeral values from the oracle tables on the line (`int(text)` as a JSON number, `repr(float(text))`); a lookup
+    miss is loud -/
+def codecOfJson (j : Json) : Except String Pdt.JsonText.NumCodec := do
+  let ints ← objPairs (j.getObjValD "ints")
+  let floats ← objPairs (j.getObjValD "floats")
+  pure ⟨fun s => match ints.lookup (String.ofList s) with
+          | some v => match v.getInt? with | .ok i => i | .error _ => -424242424242
+          | none => -424242424242,
+        fun s => match floats.lookup (String.ofList s) with
+          | some (.str t) => t.toList
+          | _ => "ORACLE-MISS".toList⟩
+
 end Drv.JsonOps
 
 namespace Drv
@@ -164,6 +177,15 @@ def handleJson (op : String) (j : Json) : Option (Except String Json) :=
     let vals ← (← getArr t "columns").mapM pvalOfJson
     pure (excOrJVal (Pdt.Json.toJsonSerializable
       (Pdt.Json.precursorPValObs name (names.zip (units.zip vals)) dests)))
+  | "json_dumps" => some do
+    let v ← jvalOfJson (← j.getObjVal? "j")
+    pure (Json.mkObj [("text", str (Pdt.JsonText.dumps v))])
+  | "json_loads" => some do
+    let text ← getStr j "text"
+    let cd ← codecOfJson j
+    match Pdt.JsonText.loads cd text with
+    | some v => pure (Json.mkObj [("ok", jvalToJson v)])
+    | none => pure (Json.mkObj [("reject", Json.bool true)])
   | "json_to_grid" => some do
     let v ← jvalOfJson (← j.getObjVal? "j")
     let fi ← fiOfJson j
